@@ -68,6 +68,7 @@ def finish(eng, prop, args, seed, results, wall, enum_results=()):
             continue
         info = r["info"]
         functions.append({k: info[k] for k in ("key", "file", "lines", "sha256", "paths", "contract") if k in info})
+        functions[-1].update(worker_wall_s=r.get("wall"), prune_mode=r.get("prune_mode", "shared"))
         for callee in info.get("calls", []):
             c = eng.contracts.get(callee)
             if c is not None and c.trusted:
@@ -157,6 +158,8 @@ def finish(eng, prop, args, seed, results, wall, enum_results=()):
         rc = 2
     if rc == 0 and (errors or vacuous):
         rc = 3
+    for k, fb in sorted(getattr(args, "worker_fallbacks", {}).items()):
+        print(f"NOTE property={prop} {k}: verified again with path pruning mode '{fb['mode']}' after {fb['after']}")
     for e in errors:
         print(f"CHECKER-ERROR property={prop} {e}")
     for v in vacuous:
@@ -194,6 +197,9 @@ def finish(eng, prop, args, seed, results, wall, enum_results=()):
                             if level == "proof" else
                             "not a complete proof on this run: see failing / undecided / known findings / bounded stand-ins"),
             "src_root": args.src,
+            # contracts whose first worker process died inside libz3 and that were verified again, from scratch, with
+            # another path-pruning mode (pyvc/run.py PRUNE_MODES); empty on most runs
+            "worker_fallbacks": getattr(args, "worker_fallbacks", {}),
         },
         "assumptions": assumptions,
         "wall_s": round(wall, 3),
